@@ -25,3 +25,12 @@ claim("C16",
       "exhaustion, do_level contract). Exhaustive inside the bound.",
       "Trusted: CPython, CrossHair path bookkeeping (+tally cross-check), z3, the schedule oracle (validated on the pinned tree).",
       "CrossHair symbolic execution (pattern D: solver-enumerated operation histories) + z3", "DESIGN.md 2/C16")
+claim("C05",
+      "Bounded symbolic execution of the real prune / iterative_prune / proof-tree finders and of RuleDB fed through a stub "
+      "searcher. Solver variables: which candidate rules are present (all dictionaries over 2 labels, arity<=2), the draw tape "
+      "of the random finders, the `maximum` of the depth-first generator (code traced), and every insertion of a history into "
+      "the rule database (has_specification compared with SCC-collapse + fixed point after every add; smallest tree compared "
+      "with the exhaustive minimum). Exhaustive inside the bound.",
+      "Trusted: CPython, CrossHair path bookkeeping (+tally cross-check), z3, the reference fixed points / minimum tree size "
+      "(validated in selftest); stub searcher and stub rules for RuleDBBase; clock and random replaced by shims.",
+      "CrossHair symbolic execution (pattern D decision variables; pattern T for `maximum`) + z3", "DESIGN.md 2/C05")
